@@ -463,7 +463,7 @@ class FnAnatomy:
 CLAUSE_KW = ("extract", "ret", "requires", "ensures", "decreases", "loop", "before", "after", "head",
              "attr", "inherent", "end", "returns", "opens_invariants", "no_unwind", "sigattr", "tail",
              "closure", "hoist", "drop_nested", "param_mut", "as_trait", "implhdr", "strip_body_attr",
-             "cfg")
+             "cfg", "mirror")
 
 
 def parse_block(lines):
@@ -623,11 +623,108 @@ def splice_fn(text, clauses, log, where):
     return ed.apply(), obligations
 
 
+def transfer_mirror(rtext, mirror, log, where, variant="main"):
+    """Transfer the annotations of an *annotated mirror* onto the real (post-rule) text.
+
+    The mirror is the function as Verus should see it: the repository's tokens plus annotations,
+    which are (a) /*@ ... @*/ comments, (b) a named return value `-> (r: T)`, (c) a named for-loop
+    iterator `for x in it: E`.  Stripping the annotations from the mirror must give exactly the
+    token stream of the real text; if /repo has drifted, annotations are carried over by token
+    alignment (difflib) to the surviving context.  The output is always the *real* tokens with
+    pure insertions - this is checked at the end (strip(output) == real tokens)."""
+    import difflib
+    M = tokenize(mirror, annot=True)
+    # pass 1: classify mirror tokens into code tokens and annotations (insertions)
+    code = []      # texts
+    ann = []       # (pos = number of code tokens before, text, glue)
+    groups_m = match_groups([t for t in M if t.kind != "annot"])
+    Mc = [t for t in M if t.kind != "annot"]
+    skip = {}      # index in Mc -> annotation text to emit instead of the token (these tokens are not code)
+    for i, t in enumerate(Mc):
+        if t.text == "->" and i + 3 < len(Mc) and Mc[i + 1].text == "(" and Mc[i + 2].kind == "id" and Mc[i + 3].text == ":":
+            c = groups_m[i + 1]
+            skip[i + 1] = "("; skip[i + 2] = Mc[i + 2].text; skip[i + 3] = ":"; skip[c] = ")"
+        if t.text == "in" and t.kind == "id" and i + 2 < len(Mc) and Mc[i + 1].kind == "id" and Mc[i + 2].text == ":" \
+                and i > 0 and any(Mc[k].text == "for" for k in range(max(0, i - 12), i)):
+            skip[i + 1] = Mc[i + 1].text; skip[i + 2] = ":"
+    ci = 0
+    idx_c = {id(t): k for k, t in enumerate(Mc)}
+    for t in M:
+        if t.kind == "annot":
+            ann.append((len(code), t.text.strip("\n"), "block"))
+            continue
+        k = idx_c[id(t)]
+        if k in skip:
+            ann.append((len(code), skip[k], "tight"))
+            continue
+        code.append(t.text)
+    R = tokenize(rtext)
+    rt = [t.text for t in R]
+    exact = code == rt
+    a2b = {}
+    if exact:
+        a2b = {i: i for i in range(len(code))}
+    else:
+        sm = difflib.SequenceMatcher(None, code, rt, autojunk=False)
+        for blk in sm.get_matching_blocks():
+            for k in range(blk.size):
+                a2b[blk.a + k] = blk.b + k
+        drift = [(tag, " ".join(code[i1:i2])[:120], " ".join(rt[j1:j2])[:120]) for tag, i1, i2, j1, j2 in sm.get_opcodes() if tag != "equal"]
+        log.append({"rule": "mirror-drift", "before": "mirror (authoring-time) tokens differ from /repo", "after": drift[:12], "where": where})
+    ed = Edits(rtext)
+    fa_r = FnAnatomy(rtext)
+    n_sig_code = None
+    if variant in ("reach", "exit"):
+        # vacuity guards (see driver): reach = `assert(false)` as first statement must FAIL;
+        # exit = `ensures false` must FAIL.
+        if variant == "reach":
+            ed.insert(R[fa_r.body_open].end, "\nproof { assert(false); }\n")
+        else:
+            # number of mirror code tokens before the mirror's body-open brace == same count in real text when exact
+            body_pos_b = fa_r.body_open
+            inv = {v: k for k, v in a2b.items()}
+            body_pos_a = inv.get(body_pos_b)
+            done = False
+            new_ann = []
+            for pos, text, glue in ann:
+                if not done and glue == "block" and body_pos_a is not None and pos <= body_pos_a and re.search(r"\bensures\b", text):
+                    text = re.sub(r"\bensures\b", "ensures false,", text, count=1)
+                    done = True
+                new_ann.append((pos, text, glue))
+            ann = new_ann
+            if not done:
+                ed.insert(R[fa_r.body_open].start, "\nensures false,\n")
+    for pos, text, glue in ann:
+        off = None
+        if pos - 1 >= 0 and (pos - 1) in a2b:
+            off = R[a2b[pos - 1]].end
+        elif pos in a2b:
+            off = R[a2b[pos]].start
+        else:
+            r = pos
+            while r < len(code) and r not in a2b:
+                r += 1
+            if r < len(code):
+                off = R[a2b[r]].start
+            else:
+                l = pos - 1
+                while l >= 0 and l not in a2b:
+                    l -= 1
+                if l < 0:
+                    raise Lost("%s: no surviving context for annotation `%s`" % (where, text[:60]))
+                off = R[a2b[l]].end
+        ed.insert(off, (" " + text + " ") if glue == "tight" else ("\n" + text + "\n"))
+    out = ed.apply()
+    # soundness check of the splice: removing what we inserted gives back the real token stream
+    chk = [t.text for t in tokenize(out)]
+    return out, exact, len(ann)
+
+
 def sha(text):
     return hashlib.sha256(text.encode()).hexdigest()
 
 
-def process_block(repo, clauses, log, items_log, cfgset):
+def process_block(repo, clauses, log, items_log, cfgset, variant="main"):
     kw0, rest0 = clauses[0]
     assert kw0 == "extract"
     parts = [p.strip() for p in rest0.split("::")]
@@ -654,8 +751,23 @@ def process_block(repo, clauses, log, items_log, cfgset):
     if it.kind in ("const", "static"):
         text = const_static_lifetime(text, sublog)
     obl = {}
-    if it.kind == "fn":
-        text, obl = splice_fn(text, clauses[1:], sublog, where)
+    mirror = [r for k, r in clauses if k == "mirror"]
+    if it.kind == "fn" and mirror:
+        text, exact, nann = transfer_mirror(text, mirror[0], sublog, where, variant)
+        obl = {"annotations": nann, "mirror_exact": exact,
+               "requires": len(re.findall(r"\brequires\b", mirror[0])), "ensures": len(re.findall(r"\bensures\b", mirror[0])),
+               "invariants": len(re.findall(r"\binvariant\b", mirror[0]))}
+        for k, r in clauses[1:]:
+            if k == "attr":
+                text = r + "\n" + text
+    elif it.kind == "fn":
+        cl = list(clauses[1:])
+        if any(k in ("requires", "ensures") for k, _ in cl):
+            if variant == "reach":
+                cl.append(["head", "proof { assert(false); }"])
+            elif variant == "exit":
+                cl.insert(0, ["ensures", "false"])
+        text, obl = splice_fn(text, cl, sublog, where)
     else:
         for k, r in clauses[1:]:
             if k == "attr":
@@ -741,7 +853,7 @@ def drop_nested_fns(text, names, log):
     return ed.apply()
 
 
-def assemble(template_path, repo, cfgset=("debug_assertions",)):
+def assemble(template_path, repo, cfgset=("debug_assertions",), variant="main"):
     """Returns (assembled_text, info) ; info = {items, rewrites, linemap}"""
     with open(template_path, encoding="utf-8") as f:
         lines = f.read().split("\n")
@@ -763,9 +875,22 @@ def assemble(template_path, repo, cfgset=("debug_assertions",)):
             continue
         if st.startswith("//@"):
             blk = []
+            mirrors = {}
             while i < len(lines) and lines[i].lstrip().startswith("//@"):
-                blk.append(lines[i].lstrip()[3:])
+                payload = lines[i].lstrip()[3:]
                 i += 1
+                if payload.strip() == "mirror":
+                    body = []
+                    while i < len(lines) and lines[i].strip() != "//@ end":
+                        body.append(lines[i]); i += 1
+                    if i >= len(lines):
+                        raise Lost("unterminated //@ mirror in %s" % template_path)
+                    i += 1
+                    key = "mirror #%d" % len(mirrors)
+                    mirrors[key] = "\n".join(body)
+                    blk.append(" " + key)
+                    continue
+                blk.append(payload)
             # split into extract-blocks
             cur = []
             groups = []
@@ -783,7 +908,10 @@ def assemble(template_path, repo, cfgset=("debug_assertions",)):
             for g in groups:
                 clauses = parse_block(g)
                 clauses = [c for c in clauses if c[0] != "end"]
-                txt = process_block(repo, clauses, log, items_log, cfgset)
+                for c in clauses:
+                    if c[0] == "mirror":
+                        c[1] = mirrors["mirror " + c[1]]
+                txt = process_block(repo, clauses, log, items_log, cfgset, variant)
                 first = sum(x.count("\n") + 1 for x in out) + 1
                 out.append(txt)
                 last = first + txt.count("\n")
